@@ -308,6 +308,32 @@ func runTTHCase(raw json.RawMessage, w *TraceWriter) {
 		}
 		w.Ev("tth_enc", "api", "stream", "param", pj, "ok", ok, "panic", panicked, "frame", fj, "written", wl, "tlfok", tlfok, "prefill", prefill)
 	}
+	// Encode over a zero-copy writer that reads what WriteBinary gave it only at Flush (a scratch buffer reused between
+	// two WriteBinary calls would show up as a wrong frame)
+	func() {
+		panicked := false
+		rw := &refWriter{}
+		var err error
+		wl := 0
+		func() {
+			defer func() {
+				if r := recover(); r != nil {
+					panicked = true
+				}
+			}()
+			_, err = ttheader.Encode(ctx, param, rw)
+			wl = rw.WrittenLen()
+			if err == nil {
+				err = rw.Flush()
+			}
+		}()
+		ok := err == nil && !panicked
+		fj := Raw("[]")
+		if ok {
+			fj = projectBytes(rw.out, seeds)
+		}
+		w.Ev("tth_enc", "api", "stream-ref", "param", pj, "ok", ok, "panic", panicked, "frame", fj, "written", wl)
+	}()
 	if frame == nil {
 		return
 	}
